@@ -236,10 +236,8 @@ def run_engine(ctx):
     class _RT:
         out = allout
     rt = _RT()
-    byhi = {}
-    for x in steps:
-        if x["k"] == "snap" or (x["h"], x["i"]) not in byhi:
-            byhi[(x["h"], x["i"])] = x
+    byhi = {(x["h"], x["i"]): x for x in steps if x["k"] == "step"}
+    byhi_snap = {(x["h"], x["i"]): x for x in steps if x["k"] == "snap"}
     starts = {}
     for idx, x in enumerate(recs):
         if x["k"] == "reset":
@@ -266,7 +264,7 @@ def run_engine(ctx):
                                     "panics": "ages (id, rid, age-expiration s) %s proposed %s" % (x["ages"], x["expire"]),
                                     "program": history_upto(h, n)})
                 continue
-            x = byhi[(h, i)]
+            x = byhi_snap[(h, i)] if name.startswith("RoundTrip") and (h, i) in byhi_snap else byhi[(h, i)]
             res["fail"].append({"prop": pid, "pred": name, "h": h, "i": i, "data": x["e"].get("data", ""),
                                 "cmd": x["e"].get("cmd", ""), "t": x["e"]["t"], "server": bool(x["e"].get("haspfx")),
                                 "det": x.get("det", ""), "snap": x.get("snap", ""), "snapat": x.get("snapat", 0),
